@@ -495,7 +495,11 @@ def list_method(ex, st, recv, ty, a, meth, args, kwargs, desc):
         else:
             i = ex.index_term(args[0], seq, st, desc)
             t = S.at(seq, i)
-            st.set_field('list', z3.Store(h, a, z3.Concat(z3.Extract(seq, 0, i), z3.Extract(seq, i + 1, n - i - 1))))
+            si = z3.simplify(i) if z3.is_expr(i) else i
+            if z3.is_int_value(si) and si.as_long() == 0:
+                st.set_field('list', z3.Store(h, a, z3.Extract(seq, 1, n - 1)))          # pop(0): the tail (no empty prefix to concatenate: friendlier to the at() axioms)
+            else:
+                st.set_field('list', z3.Store(h, a, z3.Concat(z3.Extract(seq, 0, i), z3.Extract(seq, i + 1, n - i - 1))))
         st.assume(S.has_type(t, ty.t, st.next_ref))
         return V(t, ty.t)
     if meth == 'popleft' and not args:
